@@ -163,10 +163,33 @@ func (lc *linCtx) refName(v ssa.Value) string {
 	case *ssa.Const:
 		return x.String()
 	}
+	// loads of a field that is only written while its object is being
+	// constructed designate the same value wherever they occur
+	if k, _, ok := fieldLoad(v); ok && lc.p.constructionOnly(k) {
+		return objKey(v)
+	}
 	if v.Name() != "" {
 		return v.Name()
 	}
 	return fmt.Sprintf("%p", v)
+}
+
+// constructionOnly: every store to the field targets an object allocated in
+// the same function and block as the store (the object is still private), so
+// after construction the field never changes.
+func (p *Prog) constructionOnly(k FieldKey) bool {
+	if r, ok := p.consOnly[k]; ok {
+		return r
+	}
+	res := len(p.stores[k]) > 0 && !p.reflectWritten(k.Type)
+	for _, s := range p.stores[k] {
+		a, ok := s.Base.(*ssa.Alloc)
+		if !ok || a.Parent() != s.Fn || a.Block() != s.Instr.Block() {
+			res = false
+		}
+	}
+	p.consOnly[k] = res
+	return res
 }
 
 // Of computes the linear form of an integer SSA value.
